@@ -13,6 +13,85 @@ outcome = {"ok": V, "end": int} | {"ok": hex} | {"err": "unpacking"|"packing", "
 import sys, json, os, importlib.util, traceback
 
 
+
+INTERVALS = None      # when a list: (start, end) of every leaf read of the generic code path
+
+
+def install_recorder():
+    """Wrap the leaf decoders of Int and Data so that the generic code path reports what it consumed.
+    (Harness-side interposition: nothing in /repo is changed; struct runs of generated code bypass it.)"""
+    from bisturi import field as F
+
+    def wrap(cls, name):
+        orig = getattr(cls, name)
+
+        def w(self, pkt, raw, offset=0, **k):
+            r = orig(self, pkt, raw, offset, **k)
+            if INTERVALS is not None:
+                INTERVALS.append((offset, r))
+            return r
+        w.__name__ = name
+        setattr(cls, name, w)
+    for n in ('_unpack_fixed_and_primitive_size', '_unpack_fixed_size'):
+        wrap(F.Int, n)
+    for n in ('_unpack_fixed_size', '_unpack_variable_size_field', '_unpack_variable_size_callable',
+              '_unpack_with_string_marker', '_unpack_with_regexp_marker'):
+        wrap(F.Data, n)
+
+
+def generated_blocks(cls, which):
+    """Block structure of the code bisturi generated for cls (read back from the text of the generated module):
+    None when that direction runs the generic loop of Packet; else a list of
+    ["S", big, [[field name, is_data, size, signed]..], advance] | ["L", field name]"""
+    import ast, re as _re
+    from bisturi.packet import Packet
+    fn = getattr(cls, which)
+    if fn is getattr(Packet, which):
+        return None
+    src = open(fn.__code__.co_filename).read()
+    tree = ast.parse(src)
+    f = next(n for n in tree.body if isinstance(n, ast.FunctionDef) and n.name == which)
+    body = next(n for n in f.body if isinstance(n, ast.Try)).body
+    names = [n for n, _, _, _ in cls.get_fields()]
+    out = []
+    i = 0
+    while i < len(body):
+        st = body[i]
+        seg = ast.get_source_segment(src, st) or ""
+        # struct block (unpack): name = ".."; next_offset = offset + N; (..) = StructUnpack(fmt, ..); offset = next_offset
+        # struct block (pack):   name = ".."; fragments.append(StructPack(fmt, ..))
+        # loop block:            name, _, _, unpack = fields[k]; offset = unpack(..)   /   name, _, pack, _ = fields[k]; pack(..)
+        if isinstance(st, ast.Assign) and isinstance(st.targets[0], ast.Name) and st.targets[0].id == "name":
+            label = st.value.value
+            if which == "unpack_impl":
+                adv = body[i + 1].value.right.value
+                call = body[i + 2].value
+                tgts = [t.attr for t in body[i + 2].targets[0].elts]
+                fmt = call.args[0].value
+                i += 4
+            else:
+                call = body[i + 1].value.args[0]
+                fmt = call.args[0].value
+                tgts = [a.attr for a in call.args[1:]]
+                adv = None
+                i += 2
+            toks = _re.findall(r"(\d*s|[BHIQbhiq])", fmt[1:])
+            ms = []
+            for nm, tk in zip(tgts, toks):
+                if tk.endswith("s"):
+                    ms.append([nm, True, int(tk[:-1] or 1), False])
+                else:
+                    ms.append([nm, False, {"b": 1, "h": 2, "i": 4, "q": 8}[tk.lower()], tk.islower()])
+            out.append(["S", fmt[0] == ">", ms, adv, label, len(toks) == len(tgts)])
+        elif isinstance(st, ast.Assign) and isinstance(st.targets[0], ast.Tuple):
+            k = st.value.slice.value
+            out.append(["L", names[k]])
+            i += 2
+        else:
+            out.append(["?", seg[:60]])
+            i += 1
+    return out
+
 def canon(v):
     from bisturi.packet import Packet
     if isinstance(v, bool):
@@ -83,8 +162,18 @@ def run_case(c, ns):
             p = build(c["value"], ns)
             return {"ok": p.pack().hex()}
         if op == "roundtrip":
+            global INTERVALS
             p = cls(_initialize_fields=False)
-            end = p.unpack_impl(bytes.fromhex(c["raw"]), c.get("offset", 0), root=p)
+            INTERVALS = [] if c.get("record") else None
+            try:
+                end = p.unpack_impl(bytes.fromhex(c["raw"]), c.get("offset", 0), root=p)
+            finally:
+                iv, INTERVALS = INTERVALS, None
+            if iv is not None:
+                try:
+                    return {"ok": canon(p), "end": end, "intervals": iv, "packed": {"ok": p.pack().hex()}}
+                except Exception as e:
+                    return {"ok": canon(p), "end": end, "intervals": iv, "packed": outcome_of_exception(e)}
             try:
                 return {"ok": canon(p), "end": end, "packed": {"ok": p.pack().hex()}}
             except Exception as e:
@@ -115,8 +204,68 @@ def run_case(c, ns):
             out = []
             for r, off in variants:
                 out.append({"raw": r.hex(), "offset": off,
-                            "outcome": run_case({"cls": c["cls"], "op": "roundtrip", "raw": r.hex(), "offset": off}, ns)})
+                            "outcome": run_case({"cls": c["cls"], "op": "roundtrip", "raw": r.hex(), "offset": off,
+                                                 "record": c.get("record")}, ns)})
             return {"packed": {"ok": raw.hex()}, "derived": out}
+        if op == "blocks":
+            return {"ok": {"unpack": generated_blocks(cls, "unpack_impl"), "pack": generated_blocks(cls, "pack_impl")}}
+        if op == "api":
+            # the public entry points: silent=True, non-bytes input
+            raw = bytes.fromhex(c["raw"])
+            out = {}
+            try:
+                out["silent"] = canon(cls.unpack(raw, c.get("offset", 0), silent=True))
+            except Exception as e:
+                out["silent"] = {"exc": type(e).__name__}
+            for bad in (None, "text", 5, bytearray(b"ab")):
+                try:
+                    cls.unpack(bad)
+                    out.setdefault("nonbytes", []).append("accepted")
+                except ValueError:
+                    out.setdefault("nonbytes", []).append("ValueError")
+                except Exception as e:
+                    out.setdefault("nonbytes", []).append(type(e).__name__)
+            return out
+        if op == "eq":
+            # equality / inequality / repr of packets: two parses of the same bytes, one field changed, another class
+            raw = bytes.fromhex(c["raw"])
+            out = {}
+
+            def guard(name, f):
+                try:
+                    out[name] = f()
+                except Exception as e:
+                    out[name] = "EXC:" + type(e).__name__
+            try:
+                p = cls.unpack(raw, c.get("offset", 0))
+                q = cls.unpack(raw, c.get("offset", 0))
+            except Exception as e:
+                return outcome_of_exception(e)
+            guard("eq_same", lambda: p == q)
+            guard("ne_same", lambda: p != q)
+            guard("repr", lambda: isinstance(repr(p), str))
+            guard("eq_self", lambda: p == p)
+            guard("eq_default", lambda: (cls() == cls(), cls() != cls()))
+            guard("repr_default", lambda: isinstance(repr(cls()), str))
+            guard("eq_other_type", lambda: (p == 5, p != 5, p == None))
+            if c.get("other"):
+                guard("eq_other_class", lambda: (p == ns[c["other"]](), p != ns[c["other"]]()))
+            ch = c.get("change")
+            if ch:
+                # change one field at a path [name, (index), name ...]
+                def change():
+                    obj = q
+                    for step in ch["path"][:-1]:
+                        obj = obj[step] if isinstance(step, int) else getattr(obj, step)
+                    last = ch["path"][-1]
+                    newv = build(ch["value"], ns)
+                    if isinstance(last, int):
+                        obj[last] = newv
+                    else:
+                        setattr(obj, last, newv)
+                    return (p == q, p != q, q == p)
+                guard("changed", change)
+            return {"ok": out}
         return {"exc": "BadCase"}
     except Exception as e:
         return outcome_of_exception(e)
@@ -133,7 +282,13 @@ def load_module(src, modname, directory):
     return mod
 
 
+_RECORDER = [False]
+
+
 def run_group(payload, d):
+    if not _RECORDER[0]:
+        install_recorder()
+        _RECORDER[0] = True
     res = {"defs": {}, "outcomes": []}
     ns = {}
     good = []
